@@ -290,7 +290,15 @@ def gen_sequence(rng, n):
         return calls
     for _ in range(n):
         k = rng.random()
-        if k < 0.3:
+        if k < 0.08:
+            # several sides in one call, given as a list; the same list is used again for another name
+            sides = rng.sample(SIDES, rng.randint(2, 4))
+            if rng.random() < 0.7 and "top" not in sides and "bottom" not in sides:
+                sides[rng.randrange(len(sides))] = rng.choice(["top", "bottom"])
+            calls.append(["set_patch_list", sides, rng.choice(["pa", "pb", "pc"])])
+            if rng.random() < 0.6:
+                calls.append(["set_patch_list", list(sides), rng.choice(["pa", "pb", "pc"])])
+        elif k < 0.3:
             calls.append(["set_patch", rng.choice(SIDES), rng.choice(["pa", "pb", "pc"])])
         elif k < 0.55:
             calls.append(["project_side", rng.choice(SIDES), rng.choice(["ga", "gb"]), rng.random() < 0.5, rng.random() < 0.5])
@@ -326,6 +334,11 @@ def run_sequence_impl(calls):
         for c in calls:
             if c[0] == "set_patch":
                 op.set_patch(c[1], c[2])
+            elif c[0] == "set_patch_list":
+                lst = shared.setdefault(("sides",) + tuple(c[1]), list(c[1])) if share else list(c[1])
+                op.set_patch(lst, c[2])
+                if lst != list(c[1]):
+                    return ("error", "ArgumentModified")
             elif c[0] == "project_side":
                 op.project_side(c[1], c[2], edges=c[3], points=c[4])
             elif c[0] == "project_edge":
@@ -494,6 +507,8 @@ LABELS = {"pa": 1, "pb": 2, "pc": 3, "ga": 11, "gb": 12, "gc": 13}
 
 
 def coq_call(c):
+    if c[0] == "set_patch_list":
+        return "; ".join("SetPatch %s %d" % (COQ_SIDE[sd], LABELS[c[2]]) for sd in c[1])
     if c[0] == "set_patch":
         return "SetPatch %s %d" % (COQ_SIDE[c[1]], LABELS[c[2]])
     if c[0] == "project_side":
@@ -631,7 +646,7 @@ class C10(Prop):
             ctx.log("search: tabulation failed: %s" % e)
             return fails
         fails += oracle_tables(face, addr)
-        for m in corr.mismatches[:5]:
+        for m in corr.mismatches[:40]:
             if m.get("kind") == "face_history":
                 bad = oracle_face_history(m["calls"], m["impl"])
                 if bad:
@@ -785,6 +800,9 @@ def oracle_sequence(calls, ob):
         for c in calls:
             if c[0] == "set_patch":
                 patch[c[1]] = c[2]
+            elif c[0] == "set_patch_list":
+                for sd in c[1]:
+                    patch[sd] = c[2]
             elif c[0] == "project_side":
                 s, l, e, p = c[1:]
                 face[s] = l
